@@ -86,9 +86,10 @@ Definition migrate (e : enc) (ops : list op) (a : actor) : eres (list op) :=
 (* ---- what the property talks about ---- *)
 Definition is_vstr (iw : opid * vobs) : bool := match snd iw with VS (SStr _) => true | _ => false end.
 Definition has_str (r : regobs) : bool := existsb is_vstr r.
-(* the highest-id visible string of a register *)
-Definition last_str (r : regobs) : list N :=
-  fold_left (fun acc iw => match snd iw with VS (SStr s) => s | _ => acc end) r [].
+(* the highest-id visible string of a register (None: the register shows no string) *)
+Definition last_str_from (r : regobs) (acc : option (list N)) : option (list N) :=
+  fold_left (fun acc iw => match snd iw with VS (SStr s) => Some s | _ => acc end) r acc.
+Definition last_str (r : regobs) : option (list N) := last_str_from r None.
 
 (* the characters of a text object, in document order *)
 Definition text_at (ops : list op) (obj : opid) : list N :=
